@@ -150,7 +150,7 @@ theorem route_listoffsets_leader (c : Cluster) (tn : String) (p : Int) (t : Topi
     (hp : t.partitions.find? (fun e => e.2.id == p) = some (p, part))
     (hl : c.brokers.lookup part.leader = some br) :
     leaderFirst c [(tn, [p])] = .ok br.id := by
-  simp [leaderFirst, lookupD, ht, hp, hl]
+  simp [leaderFirst, listOffsetsBroker, lookupD, ht, hp, hl]
 
 /-- … and a ListOffsets part is never sent to a broker the layout does not designate: the target is the listed
 leader of the part's partition, or −1 (the control connection; any broker then answers with the error code)
@@ -160,13 +160,13 @@ theorem route_listoffsets_designated (c : Cluster) (tn : String) (p : Int) (ps :
     (rest : List (String × List Int)) (b : Int) (h : leaderFirst c ((tn, p :: ps) :: rest) = .ok b) :
     b = -1 ∨ ∃ e br, (lookupD c.topics tn Topic.zero).partitions.find? (fun e => e.2.id == p) = some e ∧
       c.brokers.lookup e.2.leader = some br ∧ br.id = b := by
-  simp only [leaderFirst] at h
-  split at h
-  · next e he =>
-    split at h
-    · next br hbr => injection h with h; exact Or.inr ⟨e, br, he, hbr, h⟩
-    · injection h with h; exact Or.inl h.symm
-  · injection h with h; exact Or.inl h.symm
+  simp only [leaderFirst, listOffsetsBroker] at h
+  cases he : (lookupD c.topics tn Topic.zero).partitions.find? (fun e => e.2.id == p) with
+  | none => simp [he] at h; exact Or.inl h.symm
+  | some e =>
+    cases hbr : c.brokers.lookup e.2.leader with
+    | none => simp [he, hbr] at h; exact Or.inl h.symm
+    | some br => simp [he, hbr] at h; exact Or.inr ⟨e, br, rfl, hbr, h⟩
 
 example : (match leaderFirst ⟨0, [(0, ⟨0, "b0", 9092, ""⟩), (1, ⟨1, "b1", 9092, ""⟩)],
     [("t", ⟨"t", 0, [(0, ⟨0, 0, 7, [], [], []⟩)]⟩)]⟩ [("t", [0])] with | .ok b => b | .error _ => 0) = -1 := by decide
